@@ -93,6 +93,8 @@ def _parse_block(res, block):
             res.status = 'error'
         if res.failed_checks and all('unwinding assertion' in d for d, _ in res.failed_checks):
             res.status = 'error'   # harness bound too small: a tool problem, never an alarm
+        if not res.failed_checks:
+            res.status = 'error'   # FAILED without a failed property (solver crash / resource limit)
     elif 'TIMEOUT' in block or 'timed out' in block:
         res.status = 'timeout'
     else:
